@@ -51,10 +51,13 @@ def run_c16(it):
             opts["window"] = f["window"]
         if f["penalty"]:
             opts["penalty"] = float(f["penalty"])
+        if f.get("psi") is not None:
+            opts["psi"] = tuple(f["psi"]) if isinstance(f["psi"], list) else f["psi"]
         if f["use_c"]:
             opts["use_c"] = True
-        route = "fit[k=%d,seed=%d,init=%s,drop=%s,%s%s]" % (f["k"], f["seed"], f["init"], f["drop"],
-                                                           "c" if f["use_c"] else "py", ",mp" if f["parallel"] else "")
+        route = "fit[k=%d,seed=%d,init=%s,drop=%s,%s%s%s]" % (f["k"], f["seed"], f["init"], f["drop"],
+                                                             "c" if f["use_c"] else "py", ",mp" if f["parallel"] else "",
+                                                             ",psi=%s" % (f["psi"],) if f.get("psi") is not None else "")
         calls = []
 
         def monitor(cd, final):
